@@ -457,11 +457,11 @@ func init() {
 		if err != nil {
 			die(err)
 		}
-		// thorough: all 2^32 alarm words and status words against the specification's exported bit tables
+		// thorough: structured and pseudo-random alarm and status words (see sweepWords) against the specification's exported bit tables
 		if len(a) > 2 && a[2] == "sweep" && tables != nil {
 			sweepWords(tables, func(sig, det string) { put(sig, det, nil) })
-			classes["sweep 2^32 alarm words"] = 1 << 30
-			classes["sweep 2^32 status words"] = 1 << 30
+			classes["sweep: 2^21 structured + 2^24 random alarm words"] = 1<<21 + 1<<24
+			classes["sweep: 2^21 structured + 2^24 random status words"] = 1<<21 + 1<<24
 		}
 		out.put(summary{Summary: true, Cases: n, Distinct: n, Classes: classes, Samples: samples})
 	}
@@ -500,9 +500,25 @@ func sweepWords(t *locCase, report func(sig, det string)) {
 		go func(w int) {
 			defer wg.Done()
 			body := make([]byte, 28)
-			for hi := w; hi < 1<<16; hi += workers {
-				for lo := 0; lo < 1<<16; lo += 1 {
-					word := uint32(hi)<<16 | uint32(lo)
+			// every upper half-word with a set of lower half-words, every lower half-word with a set of upper half-words (each flag
+			// must depend on its own bit and on nothing else: all pairs of half-word patterns), and 2^24 pseudo-random words
+			pats := []uint32{0, 0xffff, 0x5555, 0xaaaa, 0x00ff, 0xff00, 0x0f0f, 0xf0f0, 0x3333, 0xcccc, 0x8001, 0x7ffe, 0x1234, 0xedcb, 0x0001, 0x8000}
+			rng := uint32(0x9e3779b9) * uint32(w+1)
+			for k := w; k < 2*(1<<16)*len(pats)+(1<<24); k += workers {
+				var word uint32
+				switch {
+				case k < (1<<16)*len(pats):
+					word = uint32(k%(1<<16))<<16 | pats[k>>16]
+				case k < 2*(1<<16)*len(pats):
+					kk := k - (1<<16)*len(pats)
+					word = pats[kk>>16]<<16 | uint32(kk%(1<<16))
+				default:
+					rng ^= rng << 13
+					rng ^= rng >> 17
+					rng ^= rng << 5
+					word = rng
+				}
+				{
 					binary.BigEndian.PutUint32(body[0:4], word)
 					binary.BigEndian.PutUint32(body[4:8], word)
 					var it model.T0x0200
